@@ -105,10 +105,10 @@ func (r *run) decryptCase(kind string, data []byte, pw string, descr map[string]
 		out = oErr
 	}
 	key := sha256.Sum256([]byte(pw))
-	hpw := gal.List([]string{gal.Pair(gal.Str(pw), gal.Bytes(key[:]))})
+	hpw := gal.List([]string{gal.Pair(bzStr(pw), bz(key[:]))})
 	var ot, pt []string
 	addPT := func(b []byte) {
-		pt = append(pt, gal.Pair(gal.Bytes(b), gal.Bool(stdParsesAsKey(b))))
+		pt = append(pt, gal.Pair(bz(b), gal.Bool(stdParsesAsKey(b))))
 	}
 	if pw == "" {
 		addPT(data)
@@ -116,12 +116,12 @@ func (r *run) decryptCase(kind string, data []byte, pw string, descr map[string]
 		plain, ok := stdOpen(key[:], data[:12], data[12:])
 		v := "None"
 		if ok {
-			v = "(Some " + gal.Bytes(plain) + ")"
+			v = "(Some " + bz(plain) + ")"
 			addPT(plain)
 		}
-		ot = append(ot, fmt.Sprintf("(%s, %s, %s, %s)", gal.Bytes(key[:]), gal.Bytes(data[:12]), gal.Bytes(data[12:]), v))
+		ot = append(ot, fmt.Sprintf("(%s, %s, %s, %s)", bz(key[:]), bz(data[:12]), bz(data[12:]), v))
 	}
-	lit := fmt.Sprintf("CDecrypt %s %s %s %s %s %s", gal.Bytes(data), gal.Str(pw), hpw, gal.List(ot), gal.List(pt), obsUnit(out))
+	lit := fmt.Sprintf("CDecrypt %s %s %s %s %s %s", bz(data), bzStr(pw), hpw, gal.List(ot), gal.List(pt), obsUnit(out))
 	descr["outcome"] = out
 	idx := r.c.Add(kind, lit, descr, nontrivial)
 	return out, k, idx
@@ -161,10 +161,10 @@ func (r *run) passwords() {
 			} else if len(enc) > 12 {
 				ct := stdSeal(kk[:], enc[:12], plainPEM)
 				okEnc = bytes.Equal(enc[12:], ct)
-				st = append(st, fmt.Sprintf("(%s, %s, %s, %s)", gal.Bytes(kk[:]), gal.Bytes(enc[:12]), gal.Bytes(plainPEM), gal.Bytes(ct)))
+				st = append(st, fmt.Sprintf("(%s, %s, %s, %s)", bz(kk[:]), bz(enc[:12]), bz(plainPEM), bz(ct)))
 			}
-			idx := c.Add("encrypt", fmt.Sprintf("CEncrypt %s %s %s %s %s", gal.Str(pw), gal.Bytes(plainPEM), gal.Bytes(enc),
-				gal.List([]string{gal.Pair(gal.Str(pw), gal.Bytes(kk[:]))}), gal.List(st)),
+			idx := c.Add("encrypt", fmt.Sprintf("CEncrypt %s %s %s %s %s", bzStr(pw), bz(plainPEM), bz(enc),
+				gal.List([]string{gal.Pair(bzStr(pw), bz(kk[:]))}), gal.List(st)),
 				map[string]interface{}{"key": kt.name, "password_hex": hexs([]byte(pw)), "encrypted": pw != ""}, pw != "")
 			if okEnc {
 				c.OracleOK()
